@@ -210,7 +210,10 @@ static void cmd_run(const J& c)
             auto val = rt.evaluate_expression(r.str("eval"), success, false);
             J e = ev("R");
             e.set("run", (long long)runno).set("res", success ? "ok" : "runtime_error").set("state", state_name(rt.runtime_state()));
-            e.set("nctx", (long long)(rt.context_end() - rt.context_begin())).set("errflag", rt.__runtime_error());
+            // scripts left in the VM: the (emptied) context of the evaluation itself is no script
+            long long left = 0;
+            for (auto it = rt.context_begin(); it != rt.context_end(); ++it) { if (!(*it)->empty()) { left++; } }
+            e.set("nctx", left).set("errflag", rt.__runtime_error());
             e.set("exitreq", rt.is_exit_requested()).set("eval", true).set("value", success && !val.empty() ? clip(val.to_string_sqf()) : std::string("nil"));
             if (use_clock) { e.set("clk", vclock::now_ms()); }
             e.set("instr", st.instr);
